@@ -715,6 +715,11 @@ def _pairs_source(it: ast.AST, target: ast.AST):
     """`((k, V) for k in X.__dict__[.keys()] if C)` (generator or list) consumed by `for name, value in ...`
     -> (X, [(filter atom over `name`, True)], V with k renamed to `name`) or None"""
     it, _ = strip_seq_wrappers(it)
+    if isinstance(it, ast.Call) and isinstance(it.func, ast.Attribute) and it.func.attr == 'items' and not it.args and \
+            isinstance(it.func.value, ast.DictComp):
+        # {k: V for k in X.__dict__ if C}.items()  ==  ((k, V) for k in X.__dict__ if C)
+        dc = it.func.value
+        it = ast.GeneratorExp(elt=ast.Tuple(elts=[dc.key, dc.value], ctx=ast.Load()), generators=dc.generators)
     if not (isinstance(it, (ast.GeneratorExp, ast.ListComp)) and len(it.generators) == 1 and isinstance(it.elt, ast.Tuple)
             and len(it.elt.elts) == 2 and isinstance(target, ast.Tuple) and len(target.elts) == 2
             and all(isinstance(x, ast.Name) for x in target.elts)):
@@ -840,12 +845,27 @@ def classify_copy_filter(cl: CopyLoop, atom: ast.AST, pol: bool) -> Tuple[str, s
                           f"holds: attributes initialised by the constructor default (e.g. min_start) keep the default"
     if isinstance(atom, ast.Compare) and len(atom.ops) == 1 and isinstance(atom.left, ast.Name) and atom.left.id == k and \
             isinstance(atom.ops[0], (ast.In, ast.NotIn, ast.Eq, ast.NotEq)):
+        if isinstance(atom.ops[0], (ast.NotIn, ast.NotEq)) == pol:
+            return 'name', f"filter `{'' if pol else 'not '}{src(atom)}` leaves out attributes by name: a public attribute of the " \
+                           f"source that happens to have one of these names is not copied (on a WBS these are ordinary attribute names)"
         return 'name', f"filter `{'' if pol else 'not '}{src(atom)}` selects attributes by a name list: other public / custom " \
                        f"attributes are not copied"
     return 'unknown', ''
 
 
-def report_copy_loop(o, f: Func, cl: CopyLoop, what: str) -> bool:
+def _excluded_names(atom: ast.AST, pol: bool, key: str):
+    """`k not in ('a', 'b')` / `k != 'a'` (exclusion by a literal name list) -> the names, else None"""
+    if isinstance(atom, ast.Compare) and len(atom.ops) == 1 and isinstance(atom.left, ast.Name) and atom.left.id == key:
+        op, c = atom.ops[0], atom.comparators[0]
+        if isinstance(op, (ast.NotIn, ast.In)) and isinstance(op, ast.NotIn) == pol and isinstance(c, (ast.Tuple, ast.List, ast.Set)) and \
+                c.elts and all(isinstance(x, ast.Constant) and isinstance(x.value, str) for x in c.elts):
+            return {x.value for x in c.elts}
+        if isinstance(op, (ast.NotEq, ast.Eq)) and isinstance(op, ast.NotEq) == pol and isinstance(c, ast.Constant) and isinstance(c.value, str):
+            return {c.value}
+    return None
+
+
+def report_copy_loop(o, f: Func, cl: CopyLoop, what: str, property_names=frozenset()) -> bool:
     """verdict for one loop against: every public attribute is copied, nothing else, only filter not k.startswith('_').
     Returns True when the loop is a faithful generic copy."""
     ok = True
@@ -865,8 +885,13 @@ def report_copy_loop(o, f: Func, cl: CopyLoop, what: str) -> bool:
                                         if w == 'deepcopy' else "; a shallow copy of a Task shares its relation lists"))
         ok = False
     public = False
+    neutral = set()
     for atom, pol in cl.atoms:
         c, text = classify_copy_filter(cl, atom, pol)
+        ex_names = _excluded_names(atom, pol, cl.key) if c == 'name' else None
+        if ex_names is not None and ex_names <= set(property_names):
+            neutral.add(id(atom))        # excludes only names that are properties of the class: those are never in __dict__
+            continue
         if c == 'public':
             public = True
         elif c == 'unknown':
@@ -875,7 +900,8 @@ def report_copy_loop(o, f: Func, cl: CopyLoop, what: str) -> bool:
         else:
             o.refute(f, cl.call, atom, f"{what} copy loop: {text}; the only filter allowed is `not k.startswith('_')`")
             ok = False
-    cl.covers = public and not cl.header_conds and all(classify_copy_filter(cl, a, p)[0] == 'public' for a, p in cl.atoms)
+    cl.covers = public and not cl.header_conds and all(classify_copy_filter(cl, a, p)[0] == 'public' or id(a) in neutral
+                                                       for a, p in cl.atoms)
     if not public and ok:
         o.refute(f, cl.call, cl.call, f"{what} copy loop has no `not k.startswith('_')` filter: private state (relations, owner, "
                                       f"root sentinel) is copied by reference, so the copy shares it with the source")
@@ -1152,7 +1178,7 @@ def _fields(ctx, o):
     loops = [l for l in find_copy_loops(ctx, cl) if isinstance(l.src_caller, ast.Name) and l.src_caller.id == sn]
     loop_ok = False
     for l in loops:
-        fine = report_copy_loop(o, cl, l, "Task attribute")
+        fine = report_copy_loop(o, cl, l, "Task attribute", set(task.getters) | set(task.setters))
         if fine and not (isinstance(l.dst_caller, ast.Name) and l.dst_caller.id == cvar):
             o.undecided(cl, l.call, l.call, "the attribute copy loop does not write to the task returned by clone")
             fine = False
@@ -1340,6 +1366,20 @@ class CloneAnalysis:
             self.G = Labeller(ctx, self.g, None if self.ret_roots else self.gmap,
                               {gp[1]: Lab('SRCS', {'ROOTS'})} if len(gp) > 1 else {})
             self.G.clone_tasks_returns = 'roots' if self.ret_roots else 'map'
+        # early exits of __clone that hand back a bare `WBS()`:  if <cond>: return WBS()
+        self.early = []
+        for stt in self.g.node.body:
+            if isinstance(stt, ast.If) and not stt.orelse:
+                body = [b for b in stt.body if not (isinstance(b, ast.Expr) and isinstance(b.value, ast.Constant))]
+                if len(body) == 1 and isinstance(body[0], ast.Return) and body[0].value is not None:
+                    rv = body[0].value
+                    if match("WBS()", rv):
+                        self.early.append((stt, body[0]))
+                    elif isinstance(rv, ast.Name):
+                        ds = flow_of(self.g).defs_of(rv.id)
+                        if len(ds) == 1 and ds[0].kind == 'assign' and ds[0].value is not None and match("WBS()", ds[0].value):
+                            self.early.append((stt, body[0]))         # `new = WBS(); ...; if <cond>: return new`
+        self._early_ids = {id(i.test) for i, _ in self.early}
         self.setdefaults: List[tuple] = []          # (function, labeller, call)
         self.helpers: List[tuple] = []              # (helper function, labeller) that receive the clone map
         for name in ('map', 'externals', 'relations', 'assembly', 'wbs_attrs', 'no_source_writes', 'once', 'fields'):
@@ -1365,6 +1405,10 @@ class CloneAnalysis:
                     o.refute(f, node, construct, text)
                 else:
                     o.undecided(f, node, construct, text)
+
+    def _gconds(self, node):
+        """path condition of a node of __clone without the negated guards of the early `return WBS()` exits (self.early)"""
+        return [c for c in self.G.cfg.conditions(node) if id(c[0]) not in self._early_ids] if node is not None else []
 
     def _need_map(self) -> bool:
         if self.mapvar is None:
@@ -2152,7 +2196,17 @@ class CloneAnalysis:
             rl = G.lab(G.expand(tgt.value, cn), cn, {})
             if tgt.attr == 'roots' and rl.kind == 'FRESHWBS':
                 stores.append((st, tgt, cn))
-        rets = [n for n in walk_no_nested(g.node) if isinstance(n, ast.Return)]
+        rets = [n for n in walk_no_nested(g.node) if isinstance(n, ast.Return) and not any(n is r for _, r in self.early)]
+        for ifs, r in self.early:
+            # an empty copy is right only for an empty selection
+            rp = roots_p
+            t = ifs.test
+            if rp and (match(f"len({rp}) == 0", t) or match(f"not {rp}", t) or match(f"not len({rp})", t) or match(f"len({rp}) < 1", t)
+                       or match(f"0 == len({rp})", t)) and len(G.flow.defs_of(rp)) == 1:
+                pass
+            else:
+                self.undecided(g, r, r, f"__clone returns an empty WBS() under `{src(t)[:60]}`, a condition the rule cannot show to mean "
+                                        f"'no roots given'")
         if not stores:
             if rets and all(r.value is not None and G.label(r.value).kind == 'FRESHWBS' for r in rets):
                 self.refute(g, g.node, 'roots not attached', "__clone returns a fresh WBS() whose roots are never assigned: the copy is empty")
@@ -2163,7 +2217,7 @@ class CloneAnalysis:
             if not isinstance(st, ast.Assign) or len(st.targets) != 1:
                 self.undecided(g, st, st, "roots of the new WBS are not set by a single plain assignment")
                 continue
-            if G.cfg.conditions(cn):
+            if self._gconds(cn):
                 self.undecided(g, st, st, "roots of the new WBS are attached only under a condition")
                 continue
             rhs = G.expand_acc(st.value, cn)
@@ -2242,11 +2296,39 @@ class CloneAnalysis:
         if not self.merged:
             self._uses(g, G, g.node, None, False)          # merged: already enumerated by the 'externals' clause
 
+    def _only_early_bypass(self, cl) -> bool:
+        """the copy loop sits at the top level of __clone (directly or through the helper call) and is skipped by nothing but the
+        early `return WBS()` exits"""
+        g = self.g
+        anchor = cl.for_node if cl.via is None else cl.via
+        cfg = cfg_of(g)
+        n = cfg.node_of(anchor) if cl.via is None else cfg.node_containing(anchor)
+        if n is None or cfg.enclosing_loops(n) or self._gconds(n):
+            return False
+        if cl.via is not None:
+            c = cfg_of(cl.func)
+            if not c.dominates(c.node_of(cl.for_node), c.exit):
+                return False
+        top = None
+        for stt in g.node.body:
+            if any(x is anchor for x in ast.walk(stt)):
+                top = stt
+        return top is not None
+
+    def _property_names(self, cls: str) -> set:
+        """names that are properties of the class: never keys of an instance __dict__, so excluding them from a copy loop is a no-op"""
+        try:
+            ci = self.prog.cls(cls)
+        except Exception:
+            return set()
+        return set(getattr(ci, 'getters', {}) or {}) | set(getattr(ci, 'setters', {}) or {})
+
     # ---------------------------------------------------------------- (e) public attributes of the WBS
     def _wbs_attrs(self):
         g = self.g
         ok_in = {}
         seen_any = False
+        fine_loops = []
         for F in (g, self.e_clone, self.e_subtree):
             good = False
             for cl in find_copy_loops(self.ctx, F):
@@ -2254,21 +2336,35 @@ class CloneAnalysis:
                 if not (isinstance(cl.src_caller, ast.Name) and cl.src_caller.id == F.self_name):
                     continue
                 o = _Recorder(self, 'wbs-attrs')
-                fine = report_copy_loop(o, F, cl, "WBS attribute")
+                if F is g and cl.func is g:
+                    cl.header_conds = [c for c in cl.header_conds if id(c[0]) not in self._early_ids]
+                fine = report_copy_loop(o, F, cl, "WBS attribute", self._property_names('WBS'))
                 dst = cl.dst_caller
                 dl = Labeller(self.ctx, F, self.gmap if F is g else None).label(dst)
-                rets = [n for n in walk_no_nested(F.node) if isinstance(n, ast.Return)]
+                rets = [n for n in walk_no_nested(F.node) if isinstance(n, ast.Return) and not (F is g and any(n is r for _, r in self.early))]
                 to_ret = all(isinstance(r.value, ast.Name) and isinstance(dst, ast.Name) and r.value.id == dst.id for r in rets)
                 if fine and not (to_ret and (dl.kind == 'FRESHWBS' or F is not g)):
                     self.undecided(F, cl.call, cl.call, "the WBS attribute copy loop does not write to the returned new WBS")
                     fine = False
-                if fine and not cl.on_every_path(F):
+                if fine and not cl.on_every_path(F) and not (F is g and self.early and self._only_early_bypass(cl)):
                     self.undecided(cl.func, cl.for_node, cl.for_node.iter, "the WBS attribute copy loop is not on every path to the return")
                     fine = False
                 if fine:
                     self.site(cl.func, cl.for_node, "for k in self.__dict__: if not k.startswith('_'): new.__setattr__(k, self.__getattribute__(k))")
                     good = True
+                    if F is g:
+                        fine_loops.append(cl)
             ok_in[F.qual] = good
+        gcfg = cfg_of(g)
+        for ifs, r in self.early:
+            if isinstance(r.value, ast.Name) and any(
+                    isinstance(cl.dst_caller, ast.Name) and cl.dst_caller.id == r.value.id and
+                    gcfg.dominates(gcfg.node_of(cl.for_node) if cl.via is None else gcfg.node_containing(cl.via), gcfg.node_of(r))
+                    for cl in fine_loops):
+                continue                    # the early exit hands back the WBS that already went through the copy loop
+            self.refute(g, r, r, f"`if {src(ifs.test)[:60]}: return {src(r.value)}` leaves __clone before the loop that copies the public attributes of "
+                                 f"the source WBS: on that path clone()/subtree() return a WBS without the WBS-level attributes of the "
+                                 f"source (the copy must carry them for every selection, also an empty one)")
         problems = any(k in ('refute', 'undecided') for c, k, *_ in self.facts if c == 'wbs-attrs')
         for E in (self.e_clone, self.e_subtree):
             rets = [n for n in walk_no_nested(E.node) if isinstance(n, ast.Return)]
@@ -2416,15 +2512,16 @@ class CloneAnalysis:
         calls = facts.calls_named(g, '__clone_tasks')
         if self.merged:
             mn = mapdef.node if mapdef is not None else None
-            if mn is not None and not self.G.cfg.conditions(mn) and not self.G.cfg.enclosing_loops(mn):
+            if mn is not None and not self._gconds(mn) and not self.G.cfg.enclosing_loops(mn):
                 self.site(g, mapdef.stmt, "the clone map is built once, inside __clone itself")
             else:
                 self.undecided(g, g.node, '__clone', "the clone map is created conditionally / inside a loop in __clone")
-        elif len(calls) == 1 and not self.G.cfg.conditions(self.G.node(calls[0])):
+        elif len(calls) == 1 and not self._gconds(self.G.node(calls[0])):
             self.site(g, calls[0], "__clone_tasks called once")
         else:
             self.undecided(g, g.node, '__clone', f"__clone_tasks is called {len(calls)} times / conditionally in __clone")
-        ctors = [n for n in walk_no_nested(g.node) if isinstance(n, ast.Call) and isinstance(n.func, ast.Name) and n.func.id == 'WBS']
+        ctors = [n for n in walk_no_nested(g.node) if isinstance(n, ast.Call) and isinstance(n.func, ast.Name) and n.func.id == 'WBS'
+                 and not any(n is r.value for _, r in self.early)]
         if len(ctors) == 1:
             self.site(g, ctors[0], "one WBS() per copy")
         else:
